@@ -141,6 +141,15 @@ impl Acc {
     }
 }
 
+pub fn clip(s: &str, n: usize) -> String {
+    if s.chars().count() <= n {
+        s.to_string()
+    } else {
+        let t: String = s.chars().take(n).collect();
+        format!("{} ...[{} chars]", t, s.chars().count())
+    }
+}
+
 pub struct KnownEntry {
     pub id: String,
     pub property: String,
@@ -220,14 +229,14 @@ pub fn finish(mut acc: Acc, info: RunInfo) -> i32 {
         });
         let _ = std::fs::write(&path, serde_json::to_string_pretty(&j).unwrap());
         println!("VIOLATION property={} replay={}", info.id, path);
-        println!("  case: {}", v.case.replace('\n', "\n        "));
-        println!("  expected: {}", v.expected);
-        println!("  observed: {}", v.observed);
+        println!("  case: {}", clip(&v.case, 1500).replace('\n', "\n        "));
+        println!("  expected: {}", clip(&v.expected, 1500));
+        println!("  observed: {}", clip(&v.observed, 1500));
         viol_json.push(j);
     }
     if acc.n_violations > 0 {
         for (k, (n, ex)) in &acc.viol_classes {
-            println!("  class [{}] x{}  e.g. {}", k, n, ex);
+            println!("  class [{}] x{}  e.g. {}", k, n, clip(ex, 300));
         }
     }
     if acc.n_violations > 10 {
@@ -235,7 +244,7 @@ pub fn finish(mut acc: Acc, info: RunInfo) -> i32 {
     }
     let mut known_json = vec![];
     for (id, n, w, what) in &out_known {
-        let wit = w.as_ref().map(|w| format!("{} => {} (expected {})", w.case.replace('\n', " "), w.observed, w.expected)).unwrap_or_default();
+        let wit = w.as_ref().map(|w| format!("{} => {} (expected {})", clip(&w.case.replace('\n', " "), 600), clip(&w.observed, 400), clip(&w.expected, 400))).unwrap_or_default();
         println!("KNOWN-FINDING: property={} {} [{}] cases={} witness: {}", info.id, id, what, n, wit);
         known_json.push(json!({"entry": id, "cases": n, "witness": wit}));
     }
